@@ -93,14 +93,31 @@ pub fn c17_roundtrip_with_mods() {
 }
 
 // ---- (c) windows shrink as OD / AR grow -----------------------------------------------------------
+// Mode and clock rate are const generics (one query each): a division by a *symbolic* rate is a
+// full divider circuit per window and did not finish; a constant divisor does.
 
-#[kani::proof]
-#[kani::unwind(3)]
-pub fn c17_windows_monotone() {
-    let mode = any_mode();
+fn mode_of(m: u8) -> GameMode {
+    match m {
+        0 => GameMode::Osu,
+        1 => GameMode::Taiko,
+        2 => GameMode::Catch,
+        _ => GameMode::Mania,
+    }
+}
+
+fn rate_of(k: u8) -> Option<f64> {
+    if k >= 8 {
+        None
+    } else {
+        Some(RATES[k as usize])
+    }
+}
+
+fn windows_monotone<const MODE: u8, const RATE_K: u8>() {
+    let mode = mode_of(MODE);
     let is_convert: bool = kani::any();
     let bits = any_mod_bits();
-    let rate = any_rate();
+    let rate = rate_of(RATE_K);
     let with_mods: bool = kani::any();
     let (lo, hi) = (grid(0, 100), grid(0, 100));
     kani::assume(lo <= hi);
@@ -117,21 +134,16 @@ pub fn c17_windows_monotone() {
     assert!(w_lo.od_ok.is_some() == (mode != GameMode::Mania) && w_lo.od_meh.is_some() == matches!(mode, GameMode::Osu | GameMode::Catch),
         "C17 which windows a mode reports");
     kani::cover!(lo < 5.0 && hi > 5.0, "across the kink at 5");
-    kani::cover!(mode == GameMode::Mania && is_convert && lo < 4.0 && hi > 5.0, "mania convert threshold");
+    kani::cover!(bits & HR != 0 && hi > 8.0, "HR cap region");
 }
 
 // ---- (c') windows scale inversely with the clock rate ---------------------------------------------
 
-#[kani::proof]
-#[kani::unwind(3)]
-pub fn c17_windows_clock_scaling() {
-    let mode = any_mode();
-    kani::assume(mode != GameMode::Mania); // mania's floor/ceil formula is not a plain division
+fn windows_clock_scaling<const MODE: u8, const RATE_K: u8>() {
+    let mode = mode_of(MODE); // (mania's floor/ceil formula is not a plain division: not instantiated)
     let bits = any_mod_bits() & (EZ | HR);
     let v = grid(0, 100);
-    let i: u8 = kani::any();
-    kani::assume(i < 8);
-    let r = RATES[i as usize];
+    let r = RATES[RATE_K as usize];
     // a value given with_mods = true already includes the rate: its window must not scale
     let (f_ar, f_od): (bool, bool) = (kani::any(), kani::any());
     let w1 = builder(mode, false, bits, Some(1.0)).ar(v, f_ar).od(v, f_od).hit_windows();
@@ -148,20 +160,17 @@ pub fn c17_windows_clock_scaling() {
         assert!(close(a * r_od, b), "C17 meh window scales inversely with the clock rate");
     }
     kani::cover!(f_od && !f_ar, "OD with mods, AR without");
-    kani::cover!(r == 100.0 && v > 9.0, "extreme rate");
+    kani::cover!(!f_od && f_ar, "AR with mods, OD without");
 }
 
 // ---- (d) HR never easier, EZ never harder ----------------------------------------------------------
 
-#[kani::proof]
-#[kani::unwind(3)]
-pub fn c17_hr_ez_ordering() {
-    let mode = any_mode();
+fn hr_ez_ordering<const MODE: u8, const RATE_K: u8>() {
+    let mode = mode_of(MODE);
     let is_convert: bool = kani::any();
-    let rate = any_rate();
-    let rate_bits = any_mod_bits() & (DT | HT);
+    let rate = rate_of(RATE_K);
     let (ar, od, cs, hp) = (grid(0, 100), grid(0, 100), grid(0, 100), grid(0, 100));
-    let mk = |bits: u32| builder(mode, is_convert, bits | rate_bits, rate).ar(ar, false).od(od, false).cs(cs, false).hp(hp, false).build();
+    let mk = |bits: u32| builder(mode, is_convert, bits, rate).ar(ar, false).od(od, false).cs(cs, false).hp(hp, false).build();
     let (ez, nm, hr) = (mk(EZ), mk(0), mk(HR));
     let le = |a: f64, b: f64| a <= b + 1e-9;
     assert!(le(ez.ar, nm.ar) && le(nm.ar, hr.ar), "C17 AR: EZ <= NM <= HR");
@@ -173,8 +182,31 @@ pub fn c17_hr_ez_ordering() {
     assert!(hr.hit_windows.od_great <= nm.hit_windows.od_great + 1e-9 && nm.hit_windows.od_great <= ez.hit_windows.od_great + 1e-9,
         "C17 great window: HR <= NM <= EZ");
     kani::cover!(hr.cs == 10.0, "HR CS capped at 10");
-    kani::cover!(mode == GameMode::Mania && !is_convert, "native mania");
+    kani::cover!(od > 8.0, "high OD");
 }
+
+macro_rules! c17_inst {
+    ($f:ident, $name:ident, $mode:literal, $rate:literal) => {
+        #[kani::proof]
+        #[kani::unwind(3)]
+        pub fn $name() {
+            $f::<$mode, $rate>();
+        }
+    };
+}
+// RATES index: 2 = 0.75, 3 = 1.0, 4 = 1.2, 5 = 1.5; 8 = no explicit rate (mods decide)
+c17_inst!(windows_monotone, c17_monotone_osu_r15, 0, 5);
+c17_inst!(windows_monotone, c17_monotone_taiko_r075, 1, 2);
+c17_inst!(windows_monotone, c17_monotone_mania_r1, 3, 3);
+c17_inst!(windows_monotone, c17_monotone_catch_r12, 2, 4);
+c17_inst!(windows_clock_scaling, c17_scaling_osu_r15, 0, 5);
+c17_inst!(windows_clock_scaling, c17_scaling_taiko_r075, 1, 2);
+c17_inst!(windows_clock_scaling, c17_scaling_taiko_r12, 1, 4);
+c17_inst!(windows_clock_scaling, c17_scaling_catch_r2, 2, 6);
+c17_inst!(hr_ez_ordering, c17_hr_ez_osu_r1, 0, 3);
+c17_inst!(hr_ez_ordering, c17_hr_ez_taiko_r15, 1, 5);
+c17_inst!(hr_ez_ordering, c17_hr_ez_mania_r1, 3, 3);
+c17_inst!(hr_ez_ordering, c17_hr_ez_catch_r075, 2, 2);
 
 // ---- C09(3): no NaN / inf over the documented input range ----------------------------------------
 // ((a) "build().hit_windows == hit_windows()" is not asserted: build() literally calls
@@ -182,7 +214,7 @@ pub fn c17_hr_ez_ordering() {
 // SAT back end did not close within 40 minutes even on a whole-number grid.)
 
 #[kani::proof]
-#[kani::unwind(3)]
+#[kani::unwind(9)]
 pub fn c17_build_vs_hit_windows_finite() {
     let mode = any_mode();
     let is_convert: bool = kani::any();
@@ -220,6 +252,8 @@ pub fn c17_difficulty_matches_explicit() {
 }
 
 verif_replay_table!(verif_replay_c17;
-    c17_roundtrip_with_mods, c17_windows_monotone, c17_windows_clock_scaling, c17_hr_ez_ordering,
+    c17_roundtrip_with_mods, c17_monotone_osu_r15, c17_monotone_taiko_r075, c17_monotone_mania_r1, c17_monotone_catch_r12,
+    c17_scaling_osu_r15, c17_scaling_taiko_r075, c17_scaling_taiko_r12, c17_scaling_catch_r2,
+    c17_hr_ez_osu_r1, c17_hr_ez_taiko_r15, c17_hr_ez_mania_r1, c17_hr_ez_catch_r075,
     c17_build_vs_hit_windows_finite, c17_difficulty_matches_explicit,
 );
